@@ -20,6 +20,8 @@ def run_history(ctx):
     from flamapy.metamodels.fm_metamodel.operations import FMMetrics
     st = ctx.suite("O-history")
     g = ctx.gen
+    import pristine
+    clean = pristine.Client()    # evaluates one model in a process where nothing was analysed before
     kinds = ("mandatory", "optional", "alternative", "or", "mutex", "card", "nn")
     for i in range(60 if ctx.tier == "quick" else 800):
         shared = suite_o.PersistentOps()
@@ -51,6 +53,12 @@ def run_history(ctx):
             if got != fresh:
                 bad = [k for k in KEYS if got[k] != fresh[k]]
                 st.oracle_fail(f"seq{j}", req, "result-depends-on-earlier-executions", str(bad))
+            alone = clean.call(m, KEYS, metrics=True)
+            if "error" in alone:
+                raise RuntimeError("pristine evaluation failed: " + alone["error"])
+            if alone["ops"] != repr(got):
+                st.oracle_fail(f"seq{j}", req, "result-differs-from-a-process-that-analysed-nothing-before",
+                               f"{alone['ops'][:150]} vs {repr(got)[:150]}")
             if mid != before:
                 st.oracle_fail(f"seq{j}", req, "read-only-operation-mutated-the-model", "")
             try:
@@ -58,10 +66,13 @@ def run_history(ctx):
                 rep2 = suite_m.canon_impl(FMMetrics().execute(fm).get_result())
                 if rep != rep2:
                     st.oracle_fail(f"seq{j}", req, "metrics-depend-on-earlier-executions", "")
+                if repr(rep) != alone.get("metrics"):
+                    st.oracle_fail(f"seq{j}", req, "metrics-differ-from-a-process-that-analysed-nothing-before", "")
             except Exception as e:  # noqa: BLE001
                 st.oracle_fail(f"seq{j}", req, "metrics-raise", spec.exn_name(e))
             if sx.dumps(spec.fm_sx(spec.dump_fm(fm))) != before:
                 st.oracle_fail(f"seq{j}", req, "metrics-mutated-the-model", "")
+    clean.close()
 
 
 # ------------------------------------------------------------------------------ GenerateRandomAttribute
